@@ -1,7 +1,275 @@
-// matrix_small.h — fixed-size Vec/Row/Mat/SymMat and scalar adaptors vs long-double reference (C25)
+// matrix_small.h — fixed-size Vec/Row/Mat/SymMat (sizes 1..6) and the negator<>/conjugate<> scalar
+// adaptors against a long-double reference (C25, fixed-size part).
 #pragma once
 #include "matrix_ref.h"
+
 namespace mx {
-inline void runSmallCase(vh::Ctx& c, vh::Rng& r, long idx) { c.skip("small-part-not-built"); }
-inline void runScalarCase(vh::Ctx& c, vh::Rng& r, long idx) { c.skip("scalar-part-not-built"); }
+using namespace SimTK;
+
+struct SmallCtx {
+    vh::Ctx& c; vh::Rng& r; std::string etype; int M; LD eps;
+    LD tolOf(LD mag, int n) const { return 32 * (n + 2) * eps * mag + 1e-300L; }
+    // compare flat logical values (column major nr x nc, one scalar per element)
+    void check(const std::string& op, const std::vector<LC>& got, int gr, int gc, const std::vector<LC>& ref, int rr, int rc, const std::vector<LD>& tol) {
+        std::string key = "fixed:" + op + ":" + etype + ":" + std::to_string(M);
+        c.cover(op + "|" + etype + "|" + std::to_string(M));
+        if (gr != rr || gc != rc || got.size() != ref.size()) { c.viol("fixed-shape:" + op + ":" + etype + ":" + std::to_string(M), vh::Json::obj().set("got_rows", gr).set("got_cols", gc).set("rows", rr).set("cols", rc)); return; }
+        double worst = 0; size_t wi = 0;
+        for (size_t s = 0; s < got.size(); ++s) {
+            bool gn = std::isnan(got[s].real()) || std::isnan(got[s].imag()) || std::isinf(got[s].real()) || std::isinf(got[s].imag());
+            double ratio = gn ? std::numeric_limits<double>::infinity() : (tol[s] == 0 ? (got[s] == ref[s] ? 0 : std::numeric_limits<double>::infinity()) : (double)(absLC(got[s] - ref[s]) / tol[s]));
+            if (ratio > worst) { worst = ratio; wi = s; }
+        }
+        c.check(key, worst, 1.0, [&] { vh::Json w = vh::Json::obj(); if (!got.empty()) w.set("index", (long)wi).set("expected", jLC(ref[wi])).set("got", jLC(got[wi])).set("tolerance", (double)tol[wi]); return w.set("op", op).set("elt", etype).set("size", M); });
+    }
+};
+
+// ---- flatten any fixed-size object to logical scalar values (column major)
+template <class E> inline LC scal(const E& e) { typename ET<E>::C o[1]; ET<E>::get(e, o); return toLC(o[0]); }
+template <int M, class E, int S> inline void flat(const Vec<M, E, S>& v, std::vector<LC>& o, int& nr, int& nc) { nr = M; nc = 1; o.resize(M); for (int i = 0; i < M; ++i) o[i] = scal(v[i]); }
+template <int N, class E, int S> inline void flat(const Row<N, E, S>& v, std::vector<LC>& o, int& nr, int& nc) { nr = 1; nc = N; o.resize(N); for (int i = 0; i < N; ++i) o[i] = scal(v[i]); }
+template <int M, int N, class E, int CS, int RS> inline void flat(const Mat<M, N, E, CS, RS>& m, std::vector<LC>& o, int& nr, int& nc) {
+    nr = M; nc = N; o.resize((size_t)M * N); for (int j = 0; j < N; ++j) for (int i = 0; i < M; ++i) o[i + j * M] = scal(m(i, j)); }
+template <int M, class E, int RS> inline void flat(const SymMat<M, E, RS>& m, std::vector<LC>& o, int& nr, int& nc) {
+    nr = M; nc = M; o.resize((size_t)M * M); for (int j = 0; j < M; ++j) for (int i = 0; i < M; ++i) o[i + j * M] = (i == j) ? scal(m.getEltDiag(i)) : (i > j) ? scal(m.getEltLower(i, j)) : scal(m.getEltUpper(i, j)); }
+template <class X> inline void flatScalar(const X& x, std::vector<LC>& o, int& nr, int& nc) { nr = nc = 1; o.assign(1, scal(x)); }
+
+struct RefM {     // dense reference matrix
+    int nr = 0, nc = 0; std::vector<LC> v;
+    RefM() {} RefM(int r, int c) : nr(r), nc(c), v((size_t)r * c, LC(0)) {}
+    LC& operator()(int i, int j) { return v[i + (size_t)j * nr]; } const LC& operator()(int i, int j) const { return v[i + (size_t)j * nr]; }
+};
+inline RefM refMul(const RefM& a, const RefM& b, std::vector<LD>& mag) {
+    RefM c(a.nr, b.nc); mag.assign(c.v.size(), 0);
+    for (int i = 0; i < a.nr; ++i) for (int j = 0; j < b.nc; ++j) for (int k = 0; k < a.nc; ++k) { c(i, j) += a(i, k) * b(k, j); mag[i + (size_t)j * c.nr] += absLC(a(i, k)) * absLC(b(k, j)); }
+    return c;
 }
+inline RefM refHerm(const RefM& a) { RefM t(a.nc, a.nr); for (int i = 0; i < a.nr; ++i) for (int j = 0; j < a.nc; ++j) t(j, i) = std::conj(a(i, j)); return t; }
+inline LC refDet(RefM a) {      // LU with partial pivoting
+    int n = a.nr; LC d(1);
+    for (int col = 0; col < n; ++col) {
+        int piv = col; LD best = 0; for (int i = col; i < n; ++i) if (absLC(a(i, col)) > best) { best = absLC(a(i, col)); piv = i; }
+        if (best == 0) return LC(0);
+        if (piv != col) { for (int j = 0; j < n; ++j) std::swap(a(col, j), a(piv, j)); d = -d; }
+        d *= a(col, col);
+        for (int i = col + 1; i < n; ++i) { LC f = a(i, col) / a(col, col); for (int j = col; j < n; ++j) a(i, j) -= f * a(col, j); }
+    }
+    return d;
+}
+inline bool refInv(RefM a, RefM& inv, LD& cond) {
+    int n = a.nr; inv = RefM(n, n); for (int i = 0; i < n; ++i) inv(i, i) = 1;
+    LD na = 0; for (auto& x : a.v) na = std::max(na, absLC(x));
+    for (int col = 0; col < n; ++col) {
+        int piv = col; LD best = 0; for (int i = col; i < n; ++i) if (absLC(a(i, col)) > best) { best = absLC(a(i, col)); piv = i; }
+        if (best < 1e-9L * (na + 1e-300L)) return false;
+        for (int j = 0; j < n; ++j) { std::swap(a(col, j), a(piv, j)); std::swap(inv(col, j), inv(piv, j)); }
+        LC d = a(col, col); for (int j = 0; j < n; ++j) { a(col, j) /= d; inv(col, j) /= d; }
+        for (int i = 0; i < n; ++i) if (i != col) { LC f = a(i, col); for (int j = 0; j < n; ++j) { a(i, j) -= f * a(col, j); inv(i, j) -= f * inv(col, j); } }
+    }
+    LD ni = 0; for (auto& x : inv.v) ni = std::max(ni, absLC(x)); cond = na * ni * n; return true;
+}
+
+template <class E, int M> struct SmallCase {
+    typedef typename ET<E>::P P; typedef std::complex<P> C; typedef typename CNT<E>::StdNumber SN;
+    enum { Cplx = ET<E>::Cplx, N = (M % 4) + 1, IsStd = std::is_same<E, typename CNT<E>::StdNumber>::value, Easy = (!ET<E>::Cplx || std::is_same<E, typename CNT<E>::StdNumber>::value) };
+    SmallCtx& x;
+    explicit SmallCase(SmallCtx& x_) : x(x_) {}
+    C rs() { P re = (P)x.r.sym(4.0); if (x.r.coin(0.3)) re = (P)x.r.integer(-3, 3); P im = Cplx ? (P)x.r.sym(4.0) : P(0); return C(re, im); }
+    E re() { C v = rs(); return ET<E>::make(&v); }
+    SN rsn() { C v = rs(); if (std::abs(v) < 0.1) v = C(1.5, 0); if constexpr (Cplx) return SN(v); else return SN(v.real()); }
+    template <class X> RefM ref(const X& obj) { RefM m; flat(obj, m.v, m.nr, m.nc); return m; }
+    template <class X> void chk(const std::string& op, const X& got, const RefM& rf, const std::vector<LD>& tol) { std::vector<LC> g; int gr, gc; flat(got, g, gr, gc); x.check(op, g, gr, gc, rf.v, rf.nr, rf.nc, tol); }
+    template <class X> void chkS(const std::string& op, const X& got, LC rf, LD tol) { std::vector<LC> g(1, scal(got)); x.check(op, g, 1, 1, std::vector<LC>(1, rf), 1, 1, std::vector<LD>(1, tol)); }
+    std::vector<LD> tolv(const std::vector<LD>& mag, int n) { std::vector<LD> t(mag.size()); for (size_t i = 0; i < mag.size(); ++i) t[i] = x.tolOf(mag[i], n); return t; }
+    std::vector<LD> exact(size_t n) { return std::vector<LD>(n, 0); }
+
+    void run() {
+        Vec<M, E> a, b; Row<M, E> rw; Mat<M, M, E> A, B; Mat<M, N, E> R; Vec<N, E> vn;
+        for (int i = 0; i < M; ++i) { a[i] = re(); b[i] = re(); rw[i] = re(); for (int j = 0; j < M; ++j) { A(i, j) = re(); B(i, j) = re(); } for (int j = 0; j < N; ++j) R(i, j) = re(); }
+        for (int j = 0; j < N; ++j) vn[j] = re();
+        const RefM ra = ref(a), rb = ref(b), rr = ref(rw), rA = ref(A), rB = ref(B), rR = ref(R), rvn = ref(vn);
+        const SN s = rsn(); const LC sl = scal(s);
+        std::vector<LD> mag;
+        auto addRef = [&](const RefM& p, const RefM& q, int sgn, std::vector<LD>& mg) { RefM o(p.nr, p.nc); mg.resize(o.v.size()); for (size_t k = 0; k < o.v.size(); ++k) { o.v[k] = p.v[k] + LC(sgn) * q.v[k]; mg[k] = absLC(p.v[k]) + absLC(q.v[k]); } return o; };
+        auto scaleRef = [&](const RefM& p, LC f, bool div, std::vector<LD>& mg) { RefM o(p.nr, p.nc); mg.resize(o.v.size()); for (size_t k = 0; k < o.v.size(); ++k) { o.v[k] = div ? p.v[k] / f : p.v[k] * f; mg[k] = absLC(o.v[k]); } return o; };
+        auto negRef = [&](const RefM& p) { RefM o = p; for (auto& z : o.v) z = -z; return o; };
+        // ---- Vec / Row
+        { RefM o = addRef(ra, rb, +1, mag); chk("Vec+Vec", a + b, o, tolv(mag, 1)); }
+        { RefM o = addRef(ra, rb, -1, mag); chk("Vec-Vec", a - b, o, tolv(mag, 1)); }
+        chk("-Vec", -a, negRef(ra), exact(M));
+        chk("~Vec", ~a, refHerm(ra), exact(M));
+        chk("~~Vec", ~~a, ra, exact(M));
+        chk("Vec.positionalTranspose", a.positionalTranspose(), [&] { RefM t(1, M); for (int i = 0; i < M; ++i) t(0, i) = ra(i, 0); return t; }(), exact(M));
+        { RefM o = scaleRef(ra, sl, false, mag); chk("Vec*scalar", a * s, o, tolv(mag, 2)); chk("scalar*Vec", s * a, o, tolv(mag, 2)); }
+        { RefM o = scaleRef(ra, sl, true, mag); chk("Vec/scalar", a / s, o, tolv(mag, 4)); }
+        { RefM o = refMul(refHerm(ra), rb, mag); chkS("~Vec*Vec", ~a * b, o.v[0], x.tolOf(mag[0], M + 1)); chkS("dot(Vec,Vec)", dot(a, b), o.v[0], x.tolOf(mag[0], M + 1)); }
+        { RefM o = refMul(rr, rb, mag); chkS("Row*Vec", rw * b, o.v[0], x.tolOf(mag[0], M + 1)); }
+        { RefM o = refMul(ra, rr, mag); chk("Vec*Row(outer)", a * rw, o, tolv(mag, 2)); }
+        { RefM o = refMul(ra, refHerm(rb), mag); chk("outer(Vec,Vec)", outer(a, b), o, tolv(mag, 2)); }
+        { LD ss = 0; for (auto& z : ra.v) ss += std::norm(z); chkS("Vec.normSqr", a.normSqr(), LC(ss), x.tolOf(ss, M + 1)); chkS("Vec.norm", a.norm(), LC(std::sqrt(ss)), x.tolOf(std::sqrt(ss), M + 2)); }
+        { LC sm(0); LD mg = 0; for (auto& z : ra.v) { sm += z; mg += absLC(z); } chkS("Vec.sum", a.sum(), sm, x.tolOf(mg, M)); }
+        { RefM o(M, 1); for (int i = 0; i < M; ++i) o(i, 0) = Cplx ? LC(absLC(ra(i, 0))) : LC(std::fabs(ra(i, 0).real())); chk("Vec.abs", a.abs(), o, Cplx ? tolv(std::vector<LD>(M, 8), 2) : exact(M)); }
+        { Vec<M, E> t = a; t += b; RefM o = addRef(ra, rb, +1, mag); chk("Vec+=Vec", t, o, tolv(mag, 1)); t = a; t -= b; o = addRef(ra, rb, -1, mag); chk("Vec-=Vec", t, o, tolv(mag, 1));
+          t = a; t *= s; o = scaleRef(ra, sl, false, mag); chk("Vec*=scalar", t, o, tolv(mag, 2)); t = a; t /= s; o = scaleRef(ra, sl, true, mag); chk("Vec/=scalar", t, o, tolv(mag, 4)); }
+        { Vec<M, typename CNT<E>::TNeg> na = -a; Vec<M, E> back(na); chk("Vec(negated Vec)", back, negRef(ra), exact(M)); RefM o = addRef(ra, negRef(rb), +1, mag); chk("Vec+(-Vec)", a + (-b), o, tolv(mag, 1)); }
+        { E buf[2 * M + 1]; for (int i = 0; i < 2 * M + 1; ++i) { C z(P(100 + i), Cplx ? P(-i) : P(0)); buf[i] = ET<E>::make(&z); }
+          Vec<M, E, 2>& sv = Vec<M, E, 2>::updAs(buf); sv = a; chk("strided Vec = Vec", sv, ra, exact(M));
+          bool gapsOk = true; for (int i = 0; i < M; ++i) if (i * 2 + 1 < 2 * M + 1) { C z(P(100 + 2 * i + 1), Cplx ? P(-(2 * i + 1)) : P(0)); if (scal(buf[2 * i + 1]) != toLC(z)) gapsOk = false; }
+          x.c.require("fixed:strided-Vec-write-leaves-gaps:" + x.etype + ":" + std::to_string(M), gapsOk, nullptr);
+          Vec<M, E> cp(sv); chk("Vec(strided Vec)", cp, ra, exact(M)); RefM o = addRef(ra, rb, +1, mag); chk("stridedVec+Vec", sv + b, o, tolv(mag, 1)); }
+        if constexpr (M == 3) {
+            RefM o(3, 1); std::vector<LD> mg(3);
+            for (int i = 0; i < 3; ++i) { int j = (i + 1) % 3, k = (i + 2) % 3; o(i, 0) = ra(j, 0) * rb(k, 0) - ra(k, 0) * rb(j, 0); mg[i] = absLC(ra(j, 0)) * absLC(rb(k, 0)) + absLC(ra(k, 0)) * absLC(rb(j, 0)); }
+            chk("Vec3%Vec3", a % b, o, tolv(mg, 3)); chk("cross(Vec3,Vec3)", cross(a, b), o, tolv(mg, 3));
+            RefM orow(1, 3); for (int i = 0; i < 3; ++i) orow(0, i) = o(i, 0);
+            // row % vec uses the row's elements as they are (no conjugation): r % b with r = positional transpose of a
+            chk("Row3%Vec3", a.positionalTranspose() % b, orow, tolv(mg, 3));
+            if constexpr (Easy) {   // crossMat() of conjugate<>/negated-complex elements: ill-formed (compile time)
+            chk("crossMat(Vec3)*Vec3", crossMat(a) * b, o, tolv(mg, 4));
+            { Mat<3, 3, E> cm = crossMat(a); RefM rc(3, 3); rc(0, 1) = -ra(2, 0); rc(0, 2) = ra(1, 0); rc(1, 0) = ra(2, 0); rc(1, 2) = -ra(0, 0); rc(2, 0) = -ra(1, 0); rc(2, 1) = ra(0, 0); chk("crossMat(Vec3)", cm, rc, exact(9)); }
+            }
+            { RefM o2(3, M); std::vector<LD> m2(3 * M); for (int c2 = 0; c2 < M; ++c2) for (int i = 0; i < 3; ++i) { int j = (i + 1) % 3, k = (i + 2) % 3; o2(i, c2) = ra(j, 0) * rA(k, c2) - ra(k, 0) * rA(j, c2); m2[i + 3 * c2] = absLC(ra(j, 0)) * absLC(rA(k, c2)) + absLC(ra(k, 0)) * absLC(rA(j, c2)); }
+              chk("Vec3%Mat33", a % A, o2, tolv(m2, 3)); }
+        }
+        if constexpr (M == 2) { LC o = ra(0, 0) * rb(1, 0) - ra(1, 0) * rb(0, 0); LD mg = absLC(ra(0, 0)) * absLC(rb(1, 0)) + absLC(ra(1, 0)) * absLC(rb(0, 0)); chkS("Vec2%Vec2", a % b, o, x.tolOf(mg, 3)); }
+        // ---- Mat
+        { RefM o = addRef(rA, rB, +1, mag); chk("Mat+Mat", A + B, o, tolv(mag, 1)); o = addRef(rA, rB, -1, mag); chk("Mat-Mat", A - B, o, tolv(mag, 1)); }
+        chk("-Mat", -A, negRef(rA), exact(M * M)); chk("~Mat", ~A, refHerm(rA), exact(M * M)); chk("~Mat(rect)", ~R, refHerm(rR), exact(M * N));
+        { RefM o = refMul(rA, rB, mag); chk("Mat*Mat", A * B, o, tolv(mag, M + 1)); }
+        { RefM o = refMul(rA, rR, mag); chk("Mat*Mat(rect)", A * R, o, tolv(mag, M + 1)); }
+        { RefM o = refMul(refHerm(rR), rA, mag); chk("~Mat(rect)*Mat", ~R * A, o, tolv(mag, M + 1)); }
+        { RefM o = refMul(rA, rb, mag); chk("Mat*Vec", A * b, o, tolv(mag, M + 1)); }
+        { RefM o = refMul(rR, rvn, mag); chk("Mat(rect)*Vec", R * vn, o, tolv(mag, N + 1)); }
+        { RefM o = refMul(rr, rA, mag); chk("Row*Mat", rw * A, o, tolv(mag, M + 1)); }
+        { RefM o = refMul(refHerm(ra), rA, mag); chk("~Vec*Mat", ~a * A, o, tolv(mag, M + 1)); }
+        { RefM o = refMul(negRef(refHerm(rA)), negRef(rB), mag); chk("(-~Mat)*(-Mat)", (-~A) * (-B), o, tolv(mag, M + 1)); }
+        { RefM o = refMul(negRef(rA), refHerm(rB), mag); chk("(-Mat)*(~Mat)", (-A) * (~B), o, tolv(mag, M + 1)); }
+        { RefM o = scaleRef(rA, sl, false, mag); chk("Mat*scalar", A * s, o, tolv(mag, 2)); chk("scalar*Mat", s * A, o, tolv(mag, 2)); o = scaleRef(rA, sl, true, mag); chk("Mat/scalar", A / s, o, tolv(mag, 4)); }
+        { int i = x.r.integer(0, M - 1), j = x.r.integer(0, M - 1); RefM o(1, M), oc(M, 1); for (int k = 0; k < M; ++k) { o(0, k) = rA(i, k); oc(k, 0) = rA(k, j); }
+          chk("Mat[i](row view)", A[i], o, exact(M)); chk("Mat(j)(col view)", A(j), oc, exact(M)); chk("Mat.row(i)", A.row(i), o, exact(M)); chk("Mat.col(j)", A.col(j), oc, exact(M));
+          RefM od(M, 1); LC tr(0); LD tm = 0; for (int k = 0; k < M; ++k) { od(k, 0) = rA(k, k); tr += rA(k, k); tm += absLC(rA(k, k)); } chk("Mat.diag", A.diag(), od, exact(M)); chkS("Mat.trace", A.trace(), tr, x.tolOf(tm, M));
+          Mat<M, M, E> W = A; W[i] = rw; RefM ow = rA; for (int k = 0; k < M; ++k) ow(i, k) = rr(0, k); chk("Mat[i]=Row(write-through)", W, ow, exact(M * M));
+          W = A; W(j) = b; ow = rA; for (int k = 0; k < M; ++k) ow(k, j) = rb(k, 0); chk("Mat(j)=Vec(write-through)", W, ow, exact(M * M)); }
+        { RefM cs(1, M), rsu(M, 1); std::vector<LD> mc(M, 0), mr(M, 0); for (int i = 0; i < M; ++i) for (int j = 0; j < M; ++j) { cs(0, j) += rA(i, j); mc[j] += absLC(rA(i, j)); rsu(i, 0) += rA(i, j); mr[i] += absLC(rA(i, j)); }
+          chk("Mat.colSum", A.colSum(), cs, tolv(mc, M)); chk("Mat.rowSum", A.rowSum(), rsu, tolv(mr, M)); }
+        { LD ss = 0; for (auto& z : rA.v) ss += std::norm(z); chkS("Mat.norm", A.norm(), LC(std::sqrt(ss)), x.tolOf(std::sqrt(ss), M * M + 2)); }
+        { RefM t(M, M); for (int i = 0; i < M; ++i) for (int j = 0; j < M; ++j) t(j, i) = rA(i, j); chk("Mat.positionalTranspose", A.positionalTranspose(), t, exact(M * M)); }
+        if constexpr (M >= 2) {
+            int p = x.r.integer(0, M - 1);
+            RefM dr(M - 1, M), dc(M, M - 1); for (int i = 0, ii = 0; i < M; ++i) { if (i == p) continue; for (int j = 0; j < M; ++j) dr(ii, j) = rA(i, j); ++ii; }
+            for (int j = 0, jj = 0; j < M; ++j) { if (j == p) continue; for (int i = 0; i < M; ++i) dc(i, jj) = rA(i, j); ++jj; }
+            chk("Mat.dropRow", A.dropRow(p), dr, exact((M - 1) * M)); chk("Mat.dropCol", A.dropCol(p), dc, exact((M - 1) * M));
+            RefM sub(M - 1, M - 1); for (int i = 0; i < M - 1; ++i) for (int j = 0; j < M - 1; ++j) sub(i, j) = rA(i + 1, j + 1); chk("Mat.getSubMat", A.template getSubMat<M - 1, M - 1>(1, 1), sub, exact((M - 1) * (M - 1)));
+            RefM ap(M + 1, M); for (int i = 0; i < M; ++i) for (int j = 0; j < M; ++j) ap(i, j) = rA(i, j); for (int j = 0; j < M; ++j) ap(M, j) = rr(0, j); chk("Mat.appendRow", A.appendRow(rw), ap, exact((M + 1) * M));
+        }
+        { // determinant and inverse (well conditioned inputs only)
+            Mat<M, M, E> D = A; for (int i = 0; i < M; ++i) { C z = C(P(3 + M), 0) + rs() * P(0.1); D(i, i) = D(i, i) + ET<E>::make(&z); }
+            RefM rD = ref(D), inv; LD cond = 0;
+            if (refInv(rD, inv, cond) && cond < 1e3) {
+                LC dt = refDet(rD); LD scale = 1; for (int j = 0; j < M; ++j) { LD cn = 0; for (int i = 0; i < M; ++i) cn += absLC(rD(i, j)); scale *= cn; }
+                chkS("det(Mat)", det(D), dt, x.tolOf(scale, 4 * M * M));
+                LD ni = 0; for (auto& z : inv.v) ni = std::max(ni, absLC(z));
+                std::vector<LD> ti(inv.v.size(), 64 * M * x.eps * cond * ni);
+                chk("Mat.invert", D.invert(), inv, ti); chk("inverse(Mat)", inverse(D), inv, ti); chk("lapackInverse(Mat)", lapackInverse(D), inv, ti);
+                // inversion of Mat with conjugate<>/negated complex elements is ill-formed for several combinations (compile time)
+                if constexpr (!Cplx) { chk("(~Mat).invert", (~D).invert(), refHerm(inv), ti); chk("(-Mat).invert", (-D).invert(), negRef(inv), ti); }
+            } else x.c.skip("fixed-ill-conditioned");
+        }
+        // ---- SymMat (Hermitian for complex elements)
+        {
+            Mat<M, M, E> H; for (int i = 0; i < M; ++i) for (int j = 0; j < M; ++j) { C z; ET<E>::get(A(i, j), &z); C w; ET<E>::get(A(j, i), &w); C h = z + std::conj(w); if (i == j) h = C(h.real() + P(2 * M), 0); H(i, j) = ET<E>::make(&h); }
+            const RefM rH = ref(H);
+            // SymMat(Mat) and setFromSymmetric() are ill-formed for negator<> elements (compile time):
+            // such a SymMat is obtained as the negated view of a SymMat of the plain element type
+            typedef typename CNT<E>::TNeg ENeg0; constexpr bool plain = std::is_same<E, typename CNT<E>::TWithoutNegator>::value;
+            typedef typename std::conditional<plain, E, ENeg0>::type EStore;
+            Mat<M, M, EStore> Hs; if constexpr (plain) Hs = H; else Hs = -H;
+            SymMat<M, EStore> Sstore; Sstore.setFromSymmetric(Hs);
+            const SymMat<M, E>& S = [&]() -> const SymMat<M, E>& { if constexpr (plain) return Sstore; else return -Sstore; }();
+            if constexpr (plain) { chk("SymMat.setFromSymmetric", Sstore, rH, exact(M * M)); chk("SymMat(Mat)", SymMat<M, E>(H), rH, exact(M * M)); }
+            chk("Mat(SymMat)", Mat<M, M, E>(S), rH, exact(M * M));
+            { RefM o = refMul(rH, rb, mag); chk("SymMat*Vec", S * b, o, tolv(mag, M + 1)); }
+            { RefM o = refMul(rr, rH, mag); chk("Row*SymMat", rw * S, o, tolv(mag, M + 1)); }
+            { RefM o = addRef(rH, rH, +1, mag); chk("SymMat+SymMat", S + S, o, tolv(mag, 1)); }
+            chk("-SymMat", -S, negRef(rH), exact(M * M)); chk("~SymMat", ~S, refHerm(rH), exact(M * M));
+            { P sr = (P)x.r.uni(0.5, 3.0); std::vector<LD> mg; RefM o = scaleRef(rH, LC(sr), false, mg); chk("SymMat*real", S * sr, o, tolv(mg, 2)); }
+            { LC tr(0); LD tm = 0; for (int k = 0; k < M; ++k) { tr += rH(k, k); tm += absLC(rH(k, k)); } chkS("SymMat.trace", S.trace(), tr, x.tolOf(tm, M)); }
+            if constexpr (Easy) { RefM cs(1, M); std::vector<LD> mc(M, 0); for (int i = 0; i < M; ++i) for (int j = 0; j < M; ++j) { cs(0, j) += rH(i, j); mc[j] += absLC(rH(i, j)); } chk("SymMat.colSum", S.colSum(), cs, tolv(mc, M)); }
+            RefM inv; LD cond = 0;
+            if (refInv(rH, inv, cond) && cond < 1e3) {
+                LC dt = refDet(rH); LD scale = 1; for (int j = 0; j < M; ++j) { LD cn = 0; for (int i = 0; i < M; ++i) cn += absLC(rH(i, j)); scale *= cn; }
+                chkS("det(SymMat)", det(S), dt, x.tolOf(scale, 4 * M * M));
+                if constexpr (M <= 3) { LD ni = 0; for (auto& z : inv.v) ni = std::max(ni, absLC(z)); std::vector<LD> ti(inv.v.size(), 64 * M * x.eps * cond * ni); chk("inverse(SymMat)", inverse(S), inv, ti); }
+            } else x.c.skip("fixed-ill-conditioned");
+            if constexpr (M == 3) { RefM rc(3, 3); rc(0, 1) = -ra(2, 0); rc(0, 2) = ra(1, 0); rc(1, 0) = ra(2, 0); rc(1, 2) = -ra(0, 0); rc(2, 0) = -ra(1, 0); rc(2, 1) = ra(0, 0);
+                RefM o = refMul(rc, rH, mag); chk("Vec3%SymMat33", a % S, o, tolv(mag, 4)); RefM o2 = refMul(rH, rc, mag); chk("SymMat33%Vec3", S % a, o2, tolv(mag, 4)); }
+        }
+    }
+};
+
+template <class E> inline void runSmallSizes(vh::Ctx& c, vh::Rng& r, int M) {
+    SmallCtx x{c, r, ET<E>::name(), M, (LD)std::numeric_limits<typename ET<E>::P>::epsilon()};
+    c.setPhase("fixed-size " + x.etype + " M=" + std::to_string(M));
+    switch (M) {
+    case 1: SmallCase<E, 1>(x).run(); break; case 2: SmallCase<E, 2>(x).run(); break; case 3: SmallCase<E, 3>(x).run(); break;
+    case 4: SmallCase<E, 4>(x).run(); break; case 5: SmallCase<E, 5>(x).run(); break; default: SmallCase<E, 6>(x).run(); break;
+    }
+}
+inline void runSmallCase(vh::Ctx& c, vh::Rng& r, long idx) {
+    int M = 1 + (int)(idx % 6); int t = (int)((idx / 6) % 6);
+    switch (t) {
+    case 0: runSmallSizes<double>(c, r, M); break;
+    case 1: runSmallSizes<std::complex<double>>(c, r, M); break;
+    case 2: runSmallSizes<negator<double>>(c, r, M); break;
+    case 3: runSmallSizes<conjugate<double>>(c, r, M); break;
+    case 4: runSmallSizes<float>(c, r, M); break;
+    default: runSmallSizes<negator<std::complex<double>>>(c, r, M); break;
+    }
+}
+
+// ---------------------------------------------------------------- scalar adaptors
+template <class A, class B> inline void scalarPair(vh::Ctx& c, vh::Rng& r) {
+    typedef typename ET<A>::P P; typedef std::complex<P> C;
+    const LD eps = std::numeric_limits<P>::epsilon();
+    for (int rep = 0; rep < 4; ++rep) {
+        C av((P)r.sym(5.0), ET<A>::Cplx ? (P)r.sym(5.0) : P(0)), bv((P)r.sym(5.0), ET<B>::Cplx ? (P)r.sym(5.0) : P(0));
+        if (std::abs(bv) < 0.2) bv = C(1.25, 0);
+        A a = ET<A>::make(&av); B b = ET<B>::make(&bv); LC al = toLC(av), bl = toLC(bv);
+        auto chk = [&](const char* op, LC got, LC ref, LD mag) {
+            std::string key = std::string("scalar:") + op + ":" + ET<A>::name() + "," + ET<B>::name();
+            c.cover(std::string("scalar") + op + "|" + ET<A>::name() + "|" + ET<B>::name());
+            LD tol = 64 * eps * mag;
+            bool bad = std::isnan(got.real()) || std::isnan(got.imag());
+            c.check(key, bad ? std::numeric_limits<double>::infinity() : (double)(absLC(got - ref) / (tol + 1e-300L)), 1.0,
+                    [&] { return vh::Json::obj().set("a", jLC(al)).set("b", jLC(bl)).set("expected", jLC(ref)).set("got", jLC(got)); });
+        };
+        chk("+", scal(a + b), al + bl, absLC(al) + absLC(bl));
+        chk("-", scal(a - b), al - bl, absLC(al) + absLC(bl));
+        chk("*", scal(a * b), al * bl, absLC(al) * absLC(bl));
+        chk("/", scal(a / b), al / bl, absLC(al / bl));
+        chk("unary-", scal(-a), -al, 0);
+        chk("CNT::transpose", scal(CNT<A>::transpose(a)), std::conj(al), 0);
+        c.require(std::string("scalar:==:") + ET<A>::name() + "," + ET<B>::name(), (a == b) == (al == bl) && (a != b) == (al != bl), nullptr);
+        if constexpr ((!ET<A>::Cplx && !ET<B>::Cplx) || std::is_same<A, B>::value)   // other compound assignments: ill-formed for several pairs
+        { A t = a; t += b; chk("+=", scal(t), al + bl, absLC(al) + absLC(bl)); t = a; t -= b; chk("-=", scal(t), al - bl, absLC(al) + absLC(bl)); }
+    }
+}
+template <class A, class B> inline void scalarPairMulEq(vh::Ctx& c, vh::Rng& r) { scalarPair<A, B>(c, r); }
+template <class R> inline void scalarFamily(vh::Ctx& c, vh::Rng& r, int which) {
+    typedef std::complex<R> Z; typedef conjugate<R> J; typedef negator<R> NR; typedef negator<Z> NZ; typedef negator<J> NJ;
+    switch (which) {
+    case 0: scalarPair<R, NR>(c, r); scalarPair<NR, R>(c, r); scalarPair<NR, NR>(c, r); scalarPair<Z, J>(c, r); scalarPair<J, Z>(c, r); scalarPair<J, J>(c, r); break;
+    case 1: scalarPair<Z, NZ>(c, r); scalarPair<NZ, Z>(c, r); scalarPair<NZ, NZ>(c, r); scalarPair<J, NZ>(c, r); scalarPair<NZ, J>(c, r); break;
+    case 2: scalarPair<Z, NJ>(c, r); scalarPair<NJ, Z>(c, r); scalarPair<NJ, NJ>(c, r); scalarPair<J, NJ>(c, r); scalarPair<NJ, J>(c, r); break;
+    case 3: scalarPair<NZ, NJ>(c, r); scalarPair<NJ, NZ>(c, r); break;
+    case 4: scalarPair<Z, R>(c, r); scalarPair<J, R>(c, r); scalarPair<NZ, R>(c, r); scalarPair<NJ, R>(c, r); scalarPair<Z, NR>(c, r); scalarPair<J, NR>(c, r); break;
+    default: scalarPair<NZ, NR>(c, r); scalarPair<NJ, NR>(c, r); scalarPair<Z, Z>(c, r); break;
+    }
+}
+inline void runScalarCase(vh::Ctx& c, vh::Rng& r, long idx) {
+    int which = (int)(idx % 6); bool dbl = ((idx / 6) % 2) == 0;
+    c.setPhase(std::string("scalar adaptors group ") + std::to_string(which) + (dbl ? " double" : " float"));
+    if (dbl) scalarFamily<double>(c, r, which); else scalarFamily<float>(c, r, which);
+}
+
+} // namespace mx
